@@ -155,7 +155,8 @@ def run(ck: Check):
     results = collect(ck, ck.n(1200, 25000), 28, FIXED)
     terms = [case_term(r) for r in results]
     bad = ck.coq_eval("cur", HEADER, terms, "cur_case", "check_cur", shard=200)
-    ck.run_fixed({"inherited_context_outlives_block": "C12:inherit"})
+    ck.run_fixed({"inherited_context_outlives_block": "C12:inherit", "leaked_inner_context": "C12:restore:leaked-inner",
+                  "parent_left_before_child": "C12:restore:parent-left-first"})
     sigs, n_fail = {}, 0
     for r in results:
         for sig, what in oracle(r):
